@@ -138,15 +138,16 @@ CRON = {
     "name": "cron",
     "vh": "cron",
     "design": {
-        "quick": _cron_design(["core", "recon", "two_small", "catchup"], 600),
-        "thorough": _cron_design(["core", "recon", "two", "catchup_big", "mid"], 2400),
+        "quick": _cron_design(["core", "recon", "two_small", "catchup", "relist"], 600),
+        "thorough": _cron_design(["core", "recon", "two", "catchup_big", "mid", "relist"], 2400),
     },
     "sim": {
         "quick": [{"module": "Cron_Sim.tla", "cfg": "Cron_Sim_a.cfg", "num": 150, "depth": 45, "harness_cfg": CRON_HCFG, "timeout": 600}],
         "thorough": [{"module": "Cron_Sim.tla", "cfg": "Cron_Sim_a.cfg", "num": 3000, "depth": 45, "harness_cfg": CRON_HCFG, "timeout": 1200},
                      {"module": "Cron_Sim.tla", "cfg": "Cron_Sim_b.cfg", "num": 3000, "depth": 60, "harness_cfg": {"NJC": 3, "MaxMissed": 1, "MaxDownMin": 1}, "timeout": 1200}],
     },
-    "goals": {t: [{"module": "Cron_Goal.tla", "cfg": "Cron_Goal_a.cfg", "harness_cfg": {"NJC": 1, "MaxMissed": 2, "MaxDownMin": 3}, "timeout": 420}] for t in ("quick", "thorough")},
+    "goals": {t: [{"module": "Cron_Goal.tla", "cfg": "Cron_Goal_a.cfg", "harness_cfg": {"NJC": 1, "MaxMissed": 2, "MaxDownMin": 3}, "timeout": 420},
+                  {"module": "Cron_Goal.tla", "cfg": "Cron_Goal_b.cfg", "harness_cfg": {"NJC": 1, "MaxMissed": 2, "MaxDownMin": 3}, "timeout": 300}] for t in ("quick", "thorough")},
     "harness": {
         "quick": [
             {"name": "random", "args": ["cron", "-mode", "random", "-seed", "{seed}", "-runs", "250", "-steps", "120"]},
